@@ -37,3 +37,18 @@ def flipcase(rng, s):
 def enc(s):
     b = s.encode("utf-8")
     return b.hex() if b else "-"
+
+def two_place_flips(rng, b, n=12):
+    """the same change applied in two places 1/2/4/8 bytes apart, and patterns whose per-byte / per-word
+    differences cancel under xor or sum to zero"""
+    out = []
+    L = len(b)
+    for _ in range(n):
+        w = rng.choice([1, 2, 4, 8])
+        i = rng.randrange(L - w)
+        d = rng.choice([1, 0x80, rng.randint(1, 255)])
+        x = bytearray(b); x[i] ^= d; x[i + w] ^= d
+        out.append(bytes(x))
+    x = bytearray(b); x[0] ^= 1; x[L - 1] ^= 1; out.append(bytes(x))
+    x = bytearray(b); x[0] = (x[0] + 1) & 0xff; x[1] = (x[1] - 1) & 0xff; out.append(bytes(x))
+    return out
